@@ -50,12 +50,22 @@ theorem check_iff_admissible (G : Graph) (hwf : G.WF) (x y : Nat) (Z : List Nat)
     check G x y Z = true ↔ Admissible G.edges x y Z :=
   check_iff hwf x y Z
 
+/-- the specification in the words of the property: `Z` holds no descendant of the exposure and d-separates
+    (moral-graph criterion `DSepMoral`) exposure and outcome in the graph from which the arrows leaving the exposure
+    have been removed.  (`Admissible` takes ancestors in the full graph, as the code does; this is the same.) -/
+theorem check_iff_backdoor (G : Graph) (hwf : G.WF) (x y : Nat) (Z : List Nat) :
+    check G x y Z = true ↔
+      (∀ z ∈ Z, ¬ IsDesc G.edges x z) ∧ DSepMoral (G.edges.filter (fun e => e.1 != x)) x y Z := by
+  rw [check_iff_admissible G hwf, admissible_iff_dsep]
+
 /-- M-bias graph 2→0, 2→4, 3→4, 3→1, 0→1: the empty set is admissible, the collider {4} alone is not -/
 def mbias : Graph := ⟨[0, 1, 2, 4, 3], [(0, 1), (2, 0), (2, 4), (3, 4), (3, 1)]⟩
 example : mbias.WF := by decide
 example : Admissible mbias.edges 0 1 [] := (check_iff_admissible mbias (by decide) 0 1 []).mp (by decide)
 example : ¬ Admissible mbias.edges 0 1 [4] := fun h =>
   absurd ((check_iff_admissible mbias (by decide) 0 1 [4]).mpr h) (by decide)
+example : DSepMoral (mbias.edges.filter (fun e => e.1 != 0)) 0 1 [4, 3] :=
+  ((check_iff_backdoor mbias (by decide) 0 1 [4, 3]).mp (by decide)).2
 example : Admissible mbias.edges 0 1 [4, 3] := (check_iff_admissible mbias (by decide) 0 1 [4, 3]).mp (by decide)
 
 /-- bounded supplement, kernel-checked only on this tiny instance (all 8 candidate sets of the M-bias graph): the
